@@ -95,7 +95,7 @@ def doSubsume (j : J) : Except String J := do
     let b ← recOf (← pj.get "b")
     let w ← pj.boolean "wire"
     let (ma, mb) := if w then (v.ofWire a, v.ofWire b) else (a, b)
-    pure (J.arr [jb (ma.matchesWith true mb), jb (Spec.subsumes a b), jb (OfMatch.eqMatch ma mb)])
+    pure (J.arr [jb (ma.matchesWith true mb), jb (Spec.subsumes a b), jb (OfMatch.eqMatch ma mb), jb (ma.matchesWith false mb)])
   pure (J.mk [("res", J.arr res)])
 
 def doTable (j : J) : Except String J := do
